@@ -2,7 +2,7 @@
 """import_seed2.py <Cxx> <src-m> <dst-m>: copy a confirmed round-2 seeded change from /tmp/seed_out2 into /verif/seeded"""
 import json, os, shutil, subprocess, sys
 pid, sm, dm = sys.argv[1:4]
-src = "/tmp/seed_out2/%s/%s" % (pid, sm)
+src = "%s/%s/%s" % (os.environ.get("SRCROOT", "/tmp/seed_out2"), pid, sm)
 dst = "/verif/seeded/%s_%s" % (pid, dm)
 os.makedirs(dst, exist_ok=True)
 shutil.copy(src + "/patch.diff", dst + "/patch.diff")
@@ -11,8 +11,8 @@ if os.path.exists(src + "/NOTES.md"):
     shutil.copy(src + "/NOTES.md", dst + "/NOTES.md")
 files = [l[6:].strip() for l in open(dst + "/patch.diff") if l.startswith("+++ b/")]
 head = subprocess.run(["git", "-C", "/repo", "rev-parse", "--short", "HEAD"], capture_output=True, text=True).stdout.strip()
-json.dump({"property": pid, "mutant": dm, "round": 2, "files_touched": files,
+json.dump({"property": pid, "mutant": dm, "round": int(os.environ.get("ROUND", "2")), "files_touched": files,
            "needs_to_manifest": "see NOTES.md (written by the independent sub-agent that produced the change)",
-           "confirmed_by": "SRCROOT=/tmp/seed_out2 tools/verify_seed.sh %s %s in a scratch worktree of /repo HEAD: patch applies; `go test -vet=off -count=1 ./...` passes with the patch; the demonstration (demo_test.go.txt, copied in as zz_demo_test.go; C14 under -race) fails with the patch and passes without it" % (pid, sm),
+           "confirmed_by": "SRCROOT=%s tools/verify_seed.sh" % os.environ.get("SRCROOT", "/tmp/seed_out2") + "  %s %s in a scratch worktree of /repo HEAD: patch applies; `go test -vet=off -count=1 ./...` passes with the patch; the demonstration (demo_test.go.txt, copied in as zz_demo_test.go; C14 under -race) fails with the patch and passes without it" % (pid, sm),
            "base_commit": head + " (after the five fix: commits)", "rebased": False}, open(dst + "/meta.json", "w"), indent=1)
 print(dst, files)
